@@ -152,6 +152,9 @@ class World(WorldBase):
                 # a peer that lists the same neighbours with its rows in its own (spatial block)
                 # order, as voro++ does: the id column, not the row number, says whose row it is
                 op["nl"] = True
+            if rng.random() < 0.3:
+                # text details of files written by other tools
+                op["text"] = rng.choice(["crlf", "trailing-blank", "no-final-newline", "tabs"])
             return op
         if kind == "open_reader":
             return {"op": "open_reader", "path": rng.choice(sorted(live))}
@@ -197,6 +200,8 @@ class World(WorldBase):
             ndim = rng.choice([2, 3])
             exact = rng.random() < sw["p_exact"]
             N = rng.randint(3, sw["maxN"])
+            if rng.random() < 0.04:
+                N = rng.choice([1, 2])                # one or two particles
             if exact:
                 N = min(N, 30)
             rec = {
@@ -232,11 +237,11 @@ class World(WorldBase):
         kind = rng.choice(kinds)
         op = {"op": "produce", "kind": kind, "cfg": cname, "path": path or rng.choice(sw["paths"])}
         if kind == "Nnearests":
-            if cfg.exact:
-                kind = op["kind"] = "cutoff"     # ties make N-nearest undecidable there
+            if cfg.exact or cfg.Nmin < 2:
+                kind = op["kind"] = "cutoff"     # ties make N-nearest undecidable there; a lone particle has no nearest
             else:
                 top = cfg.Nmin - 1
-                op["n"] = rng.choice([1, 2, top, top, max(1, top - 1)] + list(range(1, top + 1)))
+                op["n"] = rng.choice([x for x in [1, 2, top, top, max(1, top - 1)] + list(range(1, top + 1)) if x <= top])
         def by_target():
             # a cutoff that gives some particle exactly k neighbours, k uniform over 1..N-2: every
             # coordination number (and every digit / power-of-two boundary) is as likely as any other
@@ -249,6 +254,10 @@ class World(WorldBase):
             for _try in range(100):
                 if cfg.exact:
                     rc = rng.choice(EXACT_RC)
+                elif rng.random() < 0.06:
+                    # so short that no particle has any neighbour in any frame
+                    dmin = min(float(np.min(D[0] + np.eye(D[0].shape[0]) * 1e9)) if D[0].shape[0] > 1 else 1.0 for D in cfg.tables)
+                    rc = round(0.5 * dmin, 9)
                 elif rng.random() < 0.5 and cfg.N >= 4:
                     rc = by_target()
                 else:
@@ -478,7 +487,29 @@ class World(WorldBase):
         self.files.pop(path, None)
         frames = []
         # the stub peer writes with plain buffered I/O outside the simulated disk faults
-        with simio.real_open(path, "w", encoding="utf-8") as f:
+        style = op.get("text")
+        eol = "\r\n" if style == "crlf" else "\n"
+        sep = "\t" if style == "tabs" else " "
+        tail = "  " if style == "trailing-blank" else ""
+        nframes = len(self.files[src]["frames"])
+
+        class _W:
+            """writes the stub's lines in the chosen text style"""
+            def __init__(self, fh):
+                self.fh, self.buf = fh, []
+
+            def write(self, text):
+                self.buf.append(text)
+
+            def flush_all(self):
+                text = "".join(self.buf)
+                lines = text.split("\n")[:-1]
+                out = eol.join((sep.join(ln.split(" ")) if sep != " " else ln) + tail for ln in lines) + eol
+                if style == "no-final-newline":
+                    out = out[: -len(eol)]
+                self.fh.write(out)
+        with simio.real_open(path, "w", encoding="utf-8", newline="") as fh:
+            f = _W(fh)
             for rows in self.files[src]["frames"]:
                 f.write("id   cn   neighborlist\n" if op.get("nl") else "id   cn   edgelengthlist\n")
                 order = rng.permutation(len(rows))
@@ -489,6 +520,9 @@ class World(WorldBase):
                     f.write(f"{pid} {cn} " + " ".join(w) + "\n")
                     out.append((pid, cn, w))
                 frames.append(out)
+            f.flush_all()
+            if style:
+                self.ctx.probe("stub_file_text_style_" + style)
         self.gen_no[path] = self.gen_no.get(path, 0) + 1
         self.files[path] = {"cfg": self.files[src]["cfg"], "kind": "stub_nl" if op.get("nl") else "weights", "frames": frames,
                             "weights": not op.get("nl"), "gen": self.gen_no[path]}
@@ -590,7 +624,7 @@ class World(WorldBase):
         if exc is not None:
             self.drop_last()
             raise Violation("C05/skip-raised:skip_frame", f"{exc}")
-        if len(lines) != n_t + 1 or not lines[0].startswith("id") or any(not ln.endswith("\n") for ln in lines):
+        if len(lines) != n_t + 1 or not lines[0].startswith("id") or any(not ln.strip() for ln in lines):
             raise Violation("C05/cursor:skip_frame", f"handle {op['h']} was not at the start of frame {d['cursor']} of {d['path']}: {lines[:1]}")
         d["cursor"] += 1
         self.ctx.probe("frame_skipped_by_client_with_text_api")
